@@ -336,7 +336,36 @@ func c28Check(e *vsched.Exec, w *c28World) (out []c28Verdict, class string) {
 	bad := func(kind, key, format string, a ...interface{}) {
 		out = append(out, c28Verdict{kind, key, fmt.Sprintf(format, a...)})
 	}
-	if e.Outcome != "ok" {
+	// Close is bounded by design (CloseTimeout, force-close of the registered connection, one second of
+	// grace, then it returns and logs "goroutines still running"). When the peer never answers a write
+	// (the fake connection stalls it until a LOCAL close, i.e. forever once Close has given up), the
+	// client's own goroutines stay parked behind that write after main and every emitter have finished.
+	// The statement says nothing about goroutines outliving Close, so this terminal state is not a
+	// deadlock of the protocol: it is recorded in the class and the stream oracle still applies.
+	leak := false
+	if e.Outcome == "deadlock" {
+		leak = true
+		stalled := false
+		for _, b := range e.Blocked {
+			at := strings.Index(b, "@")
+			name, kind := b[:at], b[at+1:]
+			if h := strings.Index(kind, "#"); h >= 0 {
+				kind = kind[:h]
+			}
+			if name == "main" || strings.HasPrefix(name, "emitter") {
+				leak = false
+			}
+			switch kind {
+			case "conn.write.stalled":
+				stalled = true
+			case "conn.read", "wg.wait":
+			default:
+				leak = false
+			}
+		}
+		leak = leak && stalled
+	}
+	if e.Outcome != "ok" && !leak {
 		switch e.Outcome {
 		case "deadlock":
 			bad("deadlock", strings.Join(c28Names(e.Blocked), ","), "no enabled thread and no timer: %v", e.Blocked)
@@ -355,7 +384,7 @@ func c28Check(e *vsched.Exec, w *c28World) (out []c28Verdict, class string) {
 	for _, em := range w.emits {
 		byTag[em.Tag] = em
 	}
-	if e.Outcome == "ok" && len(w.emits) != w.wantEmits {
+	if (e.Outcome == "ok" || leak) && len(w.emits) != w.wantEmits {
 		bad("emitter-unfinished", "", "only %d of %d emit calls returned", len(w.emits), w.wantEmits)
 	}
 	// follow-ups only with a parent from the same connection
@@ -477,7 +506,11 @@ func c28Check(e *vsched.Exec, w *c28World) (out []c28Verdict, class string) {
 			valid++
 		}
 	}
-	class = fmt.Sprintf("out=%s conns=%d valid=%d delivered=%d drops=%d notes=%s", e.Outcome, len(w.conns), valid, delivered, dropsSeen, strings.Join(w.notes, "+"))
+	oc := e.Outcome
+	if leak {
+		oc = "ok-goroutines-parked-behind-stalled-write-after-bounded-close"
+	}
+	class = fmt.Sprintf("out=%s conns=%d valid=%d delivered=%d drops=%d notes=%s", oc, len(w.conns), valid, delivered, dropsSeen, strings.Join(w.notes, "+"))
 	return
 }
 
